@@ -21,6 +21,7 @@ Line protocol
   drain c=1 n=3               owner of centre 1 receives ≤ 3 events and DoEvent()s them
   gfill e=2 a=7 n=1005        n global publications
   q c=1                       queue length
+  n c=0 e=1                   subscriber count of name 1 as centre 0 reports it (light: GetSubscribeNum, HasSubscribers → `n=2 h=1`; local: `n=-`)
   rs n=5 burst=3 | conc pubs=3 n=20 cs=2 | concsub cs=2 rounds=200   run-service / concurrent-publisher / concurrent-subscriber cases
      (rs: n publications delivered by a real StandardRunService; burst>0: Stop from outside while the owner is stuck in a
       listener and `burst` publications are still queued.  The model's answer is computed by `Model/EventsOwner.lean`.)
@@ -156,6 +157,13 @@ def stepLine (s : St) (line : String) (g : List GTok) : St × String :=
     match kvNat ws "c" with
     | some c => (s, match s.w.cs[c]? with | some ct => s!"q={ct.queue.length}" | none => "bad")
     | none => (s, "bad-op")
+  | some "n" =>
+    match kvNat ws "c", kvNat ws "e" with
+    | some c, some e =>
+      (s, match s.w.cs[c]? with
+          | some ct => if ct.light then s!"n={subNum s.w c e} h={if subNum s.w c e > 0 then 1 else 0}" else "n=-"
+          | none => "bad")
+    | _, _ => (s, "bad-op")
   | some "rs" => (s, rsObs ((kvNat ws "n").getD 0) ((kvNat ws "burst").getD 0))
   | some "concfull" =>
     let pubs := (kvNat ws "pubs").getD 0
@@ -486,6 +494,26 @@ def specLine (m : Mon) (line : String) : Mon × String :=
                      else (m, s!"VIOLATION C17/queue-length centre {c} holds {obs}, published and undelivered {ct.queue.length}")
         | none => (m, "ok")
       | none => (m, "ok")
+    | some "n" =>
+      -- the centre's own count of a name's subscribers = those who subscribed (successfully) and have not been removed since
+      if m.dead then (m, "ok") else
+      match kvNat ws "c", kvNat ws "e" with
+      | some c, some e =>
+        match m.cs[c]? with
+        | some ct =>
+          if !ct.light then (m, "ok") else
+          let ow := words obs
+          let hi := (m.lis c e).length
+          let lo := ((m.lis c e).filter (fun l => !l.fuzzy)).length
+          match kvNat ow "n", kvNat ow "h" with
+          | some n, some h =>
+            if n < lo || n > hi then
+              (m, s!"VIOLATION C17/subscriber-count centre {c} event {e} reports {obs}, listeners subscribed and not removed: {((m.lis c e).map (·.id))}")
+            else if (h == 1) != (n > 0) then (m, s!"VIOLATION C17/subscriber-count centre {c} event {e} reports {obs}")
+            else (m, "ok")
+          | _, _ => (m, s!"VIOLATION C17/trace-shape {op} answered {obs}")
+        | none => (m, "ok")
+      | _, _ => (m, "ok")
     | some "rs" =>
       -- the property, on the implementation's own report: all n publications delivered in order, every invocation on the
       -- loop goroutine, nothing delivered once Stop was called (queued events included), deregistered by Stop
